@@ -130,7 +130,7 @@ def search(rep: C.Report, tier: str, broken):
         try:
             f.newInterpolationTable(float(lo_), float(hi_), npt)
         except ValueError:
-            if ngood >= 2:
+            if not ngood < 2:
                 rep.violation("building a table with at least two finite-valued points raised ValueError",
                               {"k": k, "table": [lo_, hi_, npt], "bad": f.badpts}, finding_key="C18:scalar-drop-all" if k == 1 else "C18:table-raises")
             continue
@@ -414,7 +414,7 @@ def search(rep: C.Report, tier: str, broken):
     got = float(np.asarray(f(np.array([-1.0, -2.0, 5.0])))[2])
     cub = lambda z: 1 + 2 * z + z ** 3      # noqa: E731
     rep.case(key=("directed", "midcall"))
-    if abs(got - cub(4.0)) > 1e-9:
+    if not abs(got - cub(4.0)) <= 1e-09:
         rep.violation("entry above the range is not the boundary value of the table in force at the call (mid-call adaptive update)",
                       {"history": ["new k=1 adaptive threshold=3", "table 0 4 5", "eval [6]", "modes NONE CONSTANT", "eval [-1,-2,5]"],
                        "x": 5.0, "got": got, "boundary_value_at_call_f(4)": cub(4.0), "f(6)": cub(6.0), "f(5)": cub(5.0)},
@@ -463,7 +463,7 @@ def search(rep: C.Report, tier: str, broken):
                                   finding_key=KEY_MIDCALL if (rebuilt and ml == E.NONE and mu in (E.CONSTANT, E.FUNCTION)) else "C18:adaptive-mode-rule")
             pts = np.asarray(f._interpolationPoints)
             rep.case(key=("adaptive", k, ml.name, mu.name, len(hist)))
-            if not np.all(np.diff(pts) > 0) or f._directEvaluateCount >= f._evaluationsUntilAdaptiveUpdate:
+            if not np.all(np.diff(pts) > 0) or not f._directEvaluateCount < f._evaluationsUntilAdaptiveUpdate:
                 rep.violation("invariant broken during an adaptive history (abscissae order or counter)",
                               {"k": k, "modes": [ml.name, mu.name], "history": hist, "points": pts.tolist(), "count": f._directEvaluateCount},
                               finding_key="C18:invariant")
